@@ -891,9 +891,12 @@ fn do_command_substitution_for_dollar(sh: &mut Shell, tokens: &mut types::Tokens
                 return;
             }
 
-            let to = format!("${{head}}{}${{tail}}", output_txt);
+            // splice the output in literally: a plain string would be read as a
+            // replacement template (`$1`, `${name}`, `$$`)
             let line_ = line.clone();
-            let result = re.replace(&line_, to.as_str());
+            let result = re.replace(&line_, |caps: &regex::Captures| {
+                format!("{}{}{}", &caps["head"], output_txt, &caps["tail"])
+            });
             line = result.to_string();
         }
 
